@@ -354,16 +354,34 @@ func (w *twkbWriter) writeMultiPoint(mp MultiPoint) error {
 	}
 	w.writeInitialHeaders()
 
+	// TWKB cannot represent an empty Point inside a non-empty MultiPoint, so
+	// empty Points (and their IDs) are omitted rather than being written as
+	// coordinates.
 	numPoints := mp.NumPoints()
-	w.writeUnsignedVarint(uint64(numPoints))
+	if w.hasIDs && numPoints != len(w.idList) {
+		return fmt.Errorf("unexpected ID list length %d, expected %d", len(w.idList), numPoints)
+	}
+	var numNonEmpty int
+	var ids []int64
+	for i := 0; i < numPoints; i++ {
+		if !mp.PointN(i).IsEmpty() {
+			numNonEmpty++
+			if w.hasIDs {
+				ids = append(ids, w.idList[i])
+			}
+		}
+	}
+	w.idList = ids
+	w.writeUnsignedVarint(uint64(numNonEmpty))
 
-	if err := w.writeIDList(numPoints); err != nil {
+	if err := w.writeIDList(numNonEmpty); err != nil {
 		return err
 	}
 
 	for i := 0; i < numPoints; i++ {
-		pt := mp.PointN(i)
-		w.writePointCoords(pt)
+		if pt := mp.PointN(i); !pt.IsEmpty() {
+			w.writePointCoords(pt)
+		}
 	}
 	return nil
 }
